@@ -350,11 +350,38 @@ class _Subst(ast.NodeTransformer):
 # ---------------------------------------------------------------------------------------------------------
 # new single-assignment locals
 
+def _stable_attrs(fn):
+    """attribute names that the module assigns OUTSIDE constructors (`__init__`, `__new__`, `__setstate__`): state that can
+    change between two reads. Every other attribute (methods, attributes set once at construction) reads the same early
+    or late."""
+    mod = fn
+    root = getattr(fn, "_module_tree", None)
+    if root is None:
+        return set()
+    cache = getattr(root, "_stable_attrs_cache", None)
+    if cache is not None:
+        return cache
+    stored_elsewhere, stored = set(), set()
+    def rec(node, in_ctor):
+        for ch in ast.iter_child_nodes(node):
+            if isinstance(ch, FUNC):
+                rec(ch, ch.name in ("__init__", "__new__", "__setstate__"))
+            else:
+                if isinstance(ch, ast.Attribute) and isinstance(ch.ctx, (ast.Store, ast.Del)):
+                    (stored if in_ctor else stored_elsewhere).add(ch.attr)
+                rec(ch, in_ctor)
+    rec(root, False)
+    out = stored_elsewhere
+    root._stable_attrs_cache = out
+    return out
+
+
 def propagate_new_locals(fn, known_names, pure_only=False):
     """Replace every local of `fn` that is not in `known_names`, bound exactly once by a plain `v = E`, by E at its
     uses. Returns the number of locals removed."""
     from .localnames import local_set
     done = 0
+    unstable_attrs = _stable_attrs(fn)
     for _round in range(8):
         locs = local_set(fn) - set(known_names)
         if not locs:
@@ -491,6 +518,10 @@ def propagate_new_locals(fn, known_names, pure_only=False):
                 names = {n.id for n in ast.walk(E) if isinstance(n, ast.Name)}
                 chains = {_chain(n) for n in ast.walk(E) if isinstance(n, ast.Attribute)} - {None}
                 clobber = False
+                # state that something else may change (an attribute that is re-assigned after construction somewhere in the
+                # module, a subscript, a call result): reading it EARLIER than the original program did is only the same when
+                # nothing in between can run code that changes it - no call with effects, no lock / context entered, no yield
+                volatile = any(isinstance(n, ast.Attribute) and n.attr in unstable_attrs for n in ast.walk(E))
                 for n in _own_nodes(fn):
                     ln = getattr(n, "lineno", None)
                     if ln is None or not (st.lineno < ln <= last):
@@ -499,6 +530,14 @@ def propagate_new_locals(fn, known_names, pure_only=False):
                         clobber = True
                     elif isinstance(n, ast.Attribute) and isinstance(n.ctx, (ast.Store, ast.Del)) and _chain(n) in chains:
                         clobber = True
+                    elif volatile and isinstance(n, (ast.With, ast.AsyncWith, ast.Yield, ast.YieldFrom, ast.Await)):
+                        clobber = True
+                    elif volatile and isinstance(n, ast.Call) and not any(n is u_ or any(n is x for x in ast.walk(u_)) for _, _, u_ in use_stmts) \
+                            and not ((isinstance(n.func, ast.Name) and n.func.id in _PURE_CALLS) or _chain(n.func) in _PURE_DOTTED):
+                        # a call between the definition and the use (calls that are themselves part of a using expression are
+                        # evaluated together with the use and are judged by the adjacency rule below)
+                        if getattr(n, "end_lineno", ln) < min(getattr(u_, "lineno", ln) for _, _, u_ in use_stmts):
+                            clobber = True
                 if clobber:
                     continue
             else:
